@@ -492,6 +492,23 @@ def conflict_suite(tier, seed):
             d["endpoints"].append(mk_ep("dup", "s", nw, rng, Alloc(rng, start=0x4000_0000)))
             d["connections"].append({"src": "dup", "dst": "router", "dst_idx": [0, 0], "dst_dir": "East"})
             out.append((d, {"topo": "conflict", "defect": "xy-same-coordinate", "expect": "reject"}))
+    # an endpoint connected to TWO routers (its interface has one port only): whatever floogen does with it, an accepted
+    # description must not declare link signals that lack their driver or reader
+    for algo in ("ID", "SRC"):
+        for nw in (False, True):
+            d = header("twice", nw, algo)
+            alloc = Alloc(rng)
+            d["endpoints"] = [mk_ep("epa", "ms", nw, rng, alloc), mk_ep("epb", "ms", nw, rng, alloc)]
+            d["routers"] = [{"name": "r1"}, {"name": "r2"}]
+            d["connections"] = [{"src": "epa", "dst": "r1"}, {"src": "epb", "dst": "r2"}, {"src": "r1", "dst": "r2"},
+                                {"src": "epa", "dst": "r2"}]
+            out.append((d, {"topo": "double-attached", "via": "two single routers"}))
+    for algo in ("XY", "ID", "SRC"):
+        d, _ = mesh(rng, 2, 1, algo, False, force_dir=True)
+        names = [e["name"] for e in d["endpoints"] if e.get("array") is None]
+        if names:
+            d["connections"].append({"src": names[0], "dst": "router", "dst_idx": [1, 0], "dst_dir": "North"})
+            out.append((d, {"topo": "double-attached", "via": "second array router"}))
     # valid: routers of an array joined by explicit connections that name a direction at ONE end only (the link
     # is directed at one router and undirected at the other, next to directed endpoint links)
     for algo in ("XY", "ID", "SRC"):
